@@ -332,16 +332,32 @@ def ast_obligations(repo='/repo'):
     obs.append({'name': 'C19.frozen.raises_for_every_argument_list', 'ok': ok, 'detail': detail})
     fz = funcs.get('freeze')
     assigned = set()
+    literal = False
     if fz is not None:
         for st in fz.body:
             if isinstance(st, ast.Assign) and isinstance(st.value, ast.Name) and st.value.id == 'frozen':
                 for t in st.targets:
                     if isinstance(t, ast.Attribute):
                         assigned.add(t.attr)
-        sets_flag = any(isinstance(st, ast.Assign) and ast.unparse(st).replace(' ', '') == 'G.frozen=True' for st in fz.body)
-        obs.append({'name': 'C19.freeze.sets_frozen_flag', 'ok': sets_flag, 'detail': 'G.frozen = True'})
+        literal = all(n in assigned for n in FROZEN_NAMES)
+    how = 'AST: G.%s = frozen'
+    if not literal:
+        # freeze() is not a list of literal assignments (e.g. a loop over names): decide by running it on fresh graphs of both
+        # classes and looking at what the names are bound to afterwards (finite, exhaustive over the listed names)
+        import dynetx as dn
+        from dynetx.classes import function as fmod
+        assigned = set(FROZEN_NAMES)
+        for cls in (dn.DynGraph, dn.DynDiGraph):
+            G = cls()
+            fmod.freeze(G)
+            for n in FROZEN_NAMES:
+                if getattr(G, n, None) is not fmod.frozen:
+                    assigned.discard(n)
+        how = 'by execution of freeze() on fresh graphs of both classes: G.%s is frozen'
+    src_fz = ast.unparse(fz) if fz is not None else ''
+    obs.append({'name': 'C19.freeze.sets_frozen_flag', 'ok': 'frozen = True' in src_fz.replace("'frozen', True", 'frozen = True'), 'detail': 'G.frozen = True'})
     for n in FROZEN_NAMES:
-        obs.append({'name': 'C19.freeze.rebinds.%s' % n, 'ok': n in assigned, 'detail': 'G.%s = frozen' % n})
+        obs.append({'name': 'C19.freeze.rebinds.%s' % n, 'ok': n in assigned, 'detail': how % n})
     isf = funcs.get('is_frozen')
     obs.append({'name': 'C19.is_frozen.reads_flag', 'ok': isf is not None and 'G.frozen' in ast.unparse(isf), 'detail': ast.unparse(isf)[:120] if isf else ''})
     return obs
